@@ -1,6 +1,8 @@
 """C11 — the scan callback protocol is exact: ordered message trace + return code of the real
 scanner vs the Lean model (proved equal to the protocol specification, Thm/C11.lean), on generated
-rule sets x report flags x buffers x callback scripts "return X at the k-th message" for every k."""
+rule sets x report flags x buffers x callback scripts "return X at the k-th message" for every k.
+Second campaign on a library built with YR_MAX_STRING_MATCHES=10: the CALLBACK_MSG_TOO_MANY_MATCHES part of the protocol
+(once per overflowing string, carries the string, CONTINUE disables only that string, ABORT/ERROR halt the scan)."""
 from collections import Counter
 from vf import core
 
@@ -13,14 +15,24 @@ MANIFEST = dict(
          "rule_matches_flags/ns_unsatisfied_flags incl. skipped rules, reporting loop with its two exits, finished message) equals the protocol written from the "
          "property text, and derives: every non-private rule exactly once in definition order, private never, finished last iff not stopped, flag filtering, "
          "matching iff own condition and all globals of the namespace, abort/error on a rule message stop with success/callback-error, one import+imported "
-         "pair per module, error on a module message fails the scan. Sampled (not proved): that the C code behaves like the model - checked by exact diff of the "
+         "pair per module, error on a module message fails the scan. Matching phase (fullScan): for EVERY limit, occurrence sequence, rule list with $s / #s > n "
+         "atoms and script, the model of yr_scan_verify_match/_yr_scan_add_match_to_list (per-string counters, list-full test, strings_temp_disabled, early "
+         "exit) equals: one too-many-matches warning per string with more than `limit` occurrences, in overflow order, carrying that string; after CONTINUE "
+         "exactly the ordinary scan in which each string has min(occurrences, limit) matches (so rules whose count comparisons cannot see the cap are reported as "
+         "without the limit, and the callback's later answers are unaffected); ABORT/ERROR make the warning the last message with result too-many-matches. "
+         "Sampled (not proved): that the C code behaves like the model - checked by exact diff of the "
          "ordered message list and return code on generated rule sets (1-3 namespaces, some with >64 rules/namespaces, 0-3 imports, all four flag settings, "
          "three API entry styles (scanner + set_flags, yr_rules_scan_mem, scanner with default flags), unrelated scan flags mixed in, buffers <= 19 bytes, "
-         "several consecutive scans per scanner over different buffers) with abort/error at every message index k incl. import, imported, first, last and finished messages.",
+         "several consecutive scans per scanner over different buffers) with abort/error at every message index k incl. import, imported, first, last and finished messages; "
+         "plus, against a library built with -DYR_MAX_STRING_MATCHES=10, rule sets whose strings occur limit-1 / limit / limit+1 / more times (1-3 overflowing strings "
+         "per set, mostly with string index != rule index, public and private, used as $s / not $s / #s > N with N around the limit, late-occurring marker strings, "
+         "same scanner reused on the same / a below-limit / unrelated buffer) with abort/error at every k incl. each warning.",
     design_ref="DESIGN.md §5 C11, §4 D10",
     note=core.TB + "Condition evaluation is abstracted to a boolean per atom computed from the buffer by the driver (filesize comparison, plain byte-string "
          "containment); module load functions and string matching themselves are outside C11 (C01-C04, C14). An ABORT answer to a module message and any "
-         "answer to the finished message are ignored by the code; the property is silent on both and the model follows the code.")
+         "answer to the finished message are ignored by the code; the property is silent on both and the model follows the code. "
+         "Occurrences of a string are computed by the driver as plain (overlapping) byte-string containment ordered by end position; two strings whose "
+         "warnings would be triggered less than 5 bytes apart are not generated (their order depends on the automaton's atoms, C01/C05).")
 
 MODULES = ["pe", "elf", "math", "hash", "time", "console", "string", "dotnet"]
 KINDS = ["n", "g", "p", "gp"]
@@ -241,30 +253,255 @@ def static_hist(cases, hist):
     return len(seen)
 
 
+# ---------------------------------------------------------------- too-many-matches cases (library built with YR_MAX_STRING_MATCHES=LIMIT)
+LIMIT = 10
+HOT = [b"aa", b"bb", b"cd", b"ee", b"aaa", b"fgf"]        # each over its own letters, so their occurrences never interleave
+
+
+def occurrences(buf, pat):
+    return [o for o in range(len(buf) - len(pat) + 1) if buf[o:o + len(pat)] == pat]
+
+
+def hot_segment(pat, n):
+    """bytes containing exactly n (overlapping) occurrences of pat, n >= 1"""
+    if pat in (b"aa", b"bb", b"ee"):
+        return pat[:1] * (n + 1)
+    if pat == b"aaa":
+        return b"a" * (n + 2)
+    if pat == b"cd":
+        return b"cd" * n
+    return b"fg" * n + b"f"                                  # "fgf"
+
+
+def tm_buffer(r, hots, over):
+    """over[i]: how far hot pattern i goes beyond (or stays below) the limit"""
+    segs = [hot_segment(h, max(1, LIMIT + d)) for h, d in zip(hots, over)]
+    r.shuffle(segs)
+    parts = []
+    markers = [b"qq", b"zz", b"qz", b".."]
+    for sg in segs:
+        if r.random() < 0.4:
+            parts.append(r.choice(markers))
+        parts.append(sg)
+        parts.append(r.choice([b".", b"..", b"-.-", b"x"]))
+    for _ in range(r.randint(1, 3)):                         # markers AFTER the overflow: strings whose decisive occurrence comes late
+        parts.append(r.choice(markers))
+        parts.append(r.choice([b".", b"--"]))
+    return b"".join(parts)
+
+
+def tm_atom(r, hots, free_hots, earlier):
+    """free_hots: hot patterns not used by any string yet (an overflowing pattern is given to one string only: two
+    strings overflowing at the same position would make the order of their warnings depend on the automaton)"""
+    u = r.random()
+    up = r.random() < 0.25                                   # private string
+    if free_hots and u < 0.15:
+        return hot_atom(r, free_hots.pop(r.randrange(len(free_hots))))
+    elif u < 0.65:
+        m = r.choice([b"qq", b"zz", b"qz", b"..", b"yy", b"-.-", b"q"])
+        v = r.random()
+        a = ("s" if v < 0.6 else "n" if v < 0.8 else "c%d_" % r.choice([0, 1, 2])) + hexs(m)
+    elif earlier and u < 0.80:
+        return ("r%d" if r.random() < 0.6 else "x%d") % r.choice(earlier)
+    elif u < 0.90:
+        return r.choice(["T", "F", "z5", "z200"])
+    else:
+        a = "s" + hexs(bytes(r.choice(b"mnop") for _ in range(r.randint(2, 4))))
+    return a[0].upper() + a[1:] if up and a[0] in "snc" else a
+
+
+def hot_atom(r, h):
+    v = r.random()
+    if v < 0.45:
+        a = "s" + hexs(h)
+    elif v < 0.55:
+        a = "n" + hexs(h)
+    else:
+        a = "c%d_%s" % (r.choice([0, 3, LIMIT - 2, LIMIT - 1, LIMIT, LIMIT + 1]), hexs(h))
+    return a[0].upper() + a[1:] if r.random() < 0.25 else a
+
+
+def atom_pattern(a):
+    if a[0] in "snSN":
+        return bytes.fromhex(a[1:])
+    if a[0] in "cC":
+        return bytes.fromhex(a.split("_")[1])
+    return None
+
+
+def tm_ok(items, bufs):
+    """warnings of different strings must be triggered at least 5 bytes apart in every buffer"""
+    pats = []
+    for it in items:
+        if it.startswith("r:"):
+            for a in it.split(":")[3].replace("|", "&").split("&"):
+                p = atom_pattern(a)
+                if p is not None:
+                    pats.append(p)
+    for b in bufs:
+        ends = []
+        for p in pats:
+            oc = occurrences(b, p)
+            if len(oc) > LIMIT:
+                ends.append(oc[LIMIT] + len(p))
+        ends.sort()
+        if any(y - x < 5 for x, y in zip(ends, ends[1:])):
+            return False
+    return True
+
+
+def gen_tm_cases(r, nsets):
+    cases, cid = [], 0
+    while nsets > 0:
+        nh = r.choice([1, 1, 2, 2, 3])
+        hots = r.sample([h for h in HOT if h != b"aaa"] if r.random() < 0.7 else [h for h in HOT if h != b"aa"], nh)
+        over = [r.choice([-1, 0, 1, 1, 2, 2, 4, 7]) for _ in hots]
+        if all(d <= 0 for d in over) and r.random() < 0.85:
+            over[r.randrange(nh)] = r.choice([1, 2, 5])
+        buf = tm_buffer(r, hots, over)
+        nns = r.randint(1, 2)
+        nrules = r.randint(2, 6)
+        items, by_ns = [], {}
+        nimp = r.choice([0, 0, 1, 2])
+        for m in r.sample(MODULES, nimp):
+            items.append("i:0:%s" % m)
+        lead = r.random()
+        # every hot pattern is given to one string of a chosen rule (preferably a later one: string index != rule index)
+        home = {}
+        for h in hots:
+            home.setdefault(r.choice([0] + list(range(1, nrules)) * 3), []).append(h)
+        free = []
+        for j in range(nrules):
+            ns = r.randrange(nns)
+            earlier = by_ns.setdefault(ns, [])
+            mine = [hot_atom(r, h) for h in home.get(j, [])]
+            if j == 0 and lead < 0.35 and not mine:
+                cond = r.choice(["T", "F", "z3"])                          # rule 0 without strings: string index < rule index later on
+            else:
+                n = 3 if j == 0 and lead < 0.7 else r.choice([1, 1, 2, 2, 3])     # rule 0 with several strings: index > rule index
+                atoms = mine + [tm_atom(r, hots, free, earlier) for _ in range(max(0, n - len(mine)))]
+                r.shuffle(atoms)
+                cond = atoms[0]
+                for a in atoms[1:]:
+                    cond += r.choice("&|") + a
+            items.append("r:%d:%s:%s" % (ns, r.choice(["n", "n", "n", "g", "p", "gp"]), cond))
+            earlier.append(j)
+        # history on one scanner: the same data again, data below the limit, unrelated data
+        below = tm_buffer(r, hots, [r.choice([-3, -1, 0]) for _ in hots])
+        bufsets = [[buf], [buf, buf], [buf, below], [below, buf, b"qq..zz"], [buf, b""]]
+        bufs = r.choice(bufsets)
+        if not tm_ok(items, bufs):
+            continue
+        nsets -= 1
+        nstr = sum(1 for it in items if it.startswith("r:") for a in it.split(":")[3].replace("|", "&").split("&") if atom_pattern(a) is not None)
+        nover = sum(1 for d in over if d > 0)
+        maxmsg = nover + 2 * nimp + nrules + 1
+        scripts = ["-"] + ["c" * k + x for k in range(maxmsg + 1) for x in "ae"]
+        for _ in range(3):
+            scripts.append("".join(r.choice("cccae") for _ in range(r.randint(1, maxmsg + 1))))
+        r.shuffle(scripts)
+        for f in r.sample([0, 1, 2, 3], r.choice([1, 2])):
+            api = r.choice("ssssrd") if f == 0 else r.choice("ssssr")
+            for o in range(0, len(scripts), 8):
+                cases.append("t%d L=%d f=%d x=%d api=%s buf=%s items=%s scripts=%s" % (
+                    cid, LIMIT, f, r.choice([0, 0, 4]), api, "/".join(hexs(b) for b in bufs), ";".join(items), "/".join(scripts[o:o + 8])))
+                cid += 1
+    return cases
+
+
+def tm_hist(cases, model, hist):
+    """warning-specific statistics from the case lines and the model's output"""
+    mm = {l.split(" ", 1)[0]: l for l in model}
+    seen = set()
+    for c in cases:
+        o = mm.get(c.split(" ", 1)[0], "")
+        scripts = kv(c, "scripts").split("/")
+        for sc, tr in zip(scripts, o.split(" ", 1)[1].split(" | ") if " " in o else []):
+            toks = tr.split()
+            msgs, rc = toks[:-1], toks[-1]
+            ntm = sum(1 for m in msgs if m.startswith("TM:"))
+            hist["tm:warnings_in_scan:%d" % ntm] += 1
+            if rc == "rc=TOO_MANY_MATCHES":
+                k = len(msgs) - 1
+                sc_ = "" if sc == "-" else sc
+                hist["tm:halt-on-warning:%s" % ("abort" if k < len(sc_) and sc_[k] == "a" else "error")] += 1
+            elif ntm:
+                hist["tm:continued-then:%s" % ("completed" if msgs and msgs[-1] == "FIN" else "stopped-later")] += 1
+        items = kv(c, "items")
+        if items in seen:
+            continue
+        seen.add(items)
+        bufs = [b"" if h == "-" else bytes.fromhex(h) for h in kv(c, "buf").split("/")]
+        hist["tm:scans_per_scanner_buffers:%d" % len(bufs)] += 1
+        sidx, ridx = 0, 0
+        for it in items.split(";"):
+            if not it.startswith("r:"):
+                continue
+            for a in it.split(":")[3].replace("|", "&").split("&"):
+                p = atom_pattern(a)
+                if p is None:
+                    continue
+                n = max(len(occurrences(b, p)) for b in bufs)
+                if n >= LIMIT - 1:
+                    hist["tm:occurrences:%s" % ("limit-1" if n == LIMIT - 1 else "limit" if n == LIMIT else "limit+1" if n == LIMIT + 1 else ">limit+1")] += 1
+                if n > LIMIT:
+                    hist["tm:overflowing_string:%s" % ("idx==rule_idx" if sidx == ridx else "idx!=rule_idx")] += 1
+                    hist["tm:overflowing_string:%s" % ("private" if a[0].isupper() else "public")] += 1
+                    hist["tm:overflowing_string_used_as:%s" % {"s": "$s", "n": "not $s", "c": "#s > N"}[a[0].lower()]] += 1
+                sidx += 1
+            ridx += 1
+    return len(seen)
+
+
 def run(tier, replay=None):
     chk = core.Check("C11", tier)
     lres = core.lean_check(THM)
     core.proof_coverage(chk, lres, THM)
     b = core.build("asan", harness=["h_cb"])
     r = core.rng("C11")
-    nsets, nbig = (300, 30) if tier == "quick" else (20000, 600)
+    nsets, nbig = (300, 30) if tier == "quick" else (12000, 300)
+    # second library: YR_MAX_STRING_MATCHES=LIMIT, so that CALLBACK_MSG_TOO_MANY_MATCHES is reachable with small buffers
+    bm = core.build("asan", harness=["h_cb"], extra_defs="-DYR_MAX_STRING_MATCHES=%d" % LIMIT, tag="m%d" % LIMIT)
     cases = gen_cases(r, nsets, nbig)
+    tcases = gen_tm_cases(core.rng("C11-tm"), 150 if tier == "quick" else 4000)
     if replay:
-        cases = [replay["case"]]
-    impl, rc, err = core.run_parallel([b["h_cb"]], cases)
+        one = replay["case"]
+        cases, tcases = ([], [one]) if (" L=%d " % LIMIT) in one else ([one], [])
+    tmo = 900 if tier == "quick" else 3600
+    impl, rc, err = core.run_parallel([b["h_cb"]], cases, timeout=tmo) if cases else ([], 0, "")
+    timpl, trc, terr = core.run_parallel([bm["h_cb"]], tcases, timeout=tmo) if tcases else ([], 0, "")
+    for xrc, xerr in ((rc, err), (trc, terr)):
+        if xrc == -9 and xerr.startswith("TIMEOUT"):
+            # an overloaded machine is not a property violation: report a check error (exit 2), never an alarm, never OK
+            raise RuntimeError("harness did not finish within %d s (machine overloaded?): %s" % (tmo, xerr.splitlines()[0]))
     found = False
-    if rc != 0:
-        chk.violation("harness_crash.json", {"kind": "harness-crash-or-sanitizer", "rc": rc, "stderr": err,
-                                              "engine": "cb", "harness": "h_cb", "cases": cases[:50]})
-        found = True
+    for xrc, xerr, xcases, lib in ((rc, err, cases, "default"), (trc, terr, tcases, "YR_MAX_STRING_MATCHES=%d" % LIMIT)):
+        if xrc != 0:
+            chk.violation("harness_crash_%s.json" % ("tm" if lib != "default" else "std"),
+                          {"kind": "harness-crash-or-sanitizer", "rc": xrc, "stderr": xerr, "library_build": lib,
+                           "engine": "cb", "harness": "h_cb", "cases": xcases[:50], "case": xcases[0] if len(xcases) == 1 else None})
+            found = True
     if lres.get("driver_ok"):
-        model, mrc, merr = core.run_parallel([core.driver_path(), "cb"], cases)
+        model, mrc, merr = core.run_parallel([core.driver_path(), "cb"], cases) if cases else ([], 0, "")
+        tmodel, _, _ = core.run_parallel([core.driver_path(), "cb"], tcases) if tcases else ([], 0, "")
         bad = core.diff_outputs(cases, impl, model) if rc == 0 else []
+        tbad = core.diff_outputs(tcases, timpl, tmodel) if trc == 0 else []
         for i, (c, a, m) in enumerate(bad[:20]):
             chk.violation("diff_%d.json" % i, {"kind": "model-implementation-disagreement", "engine": "cb", "harness": "h_cb",
                                                 "case": c, "implementation": a, "model_spec": m,
                                                 "note": "model trace is proved equal to the callback protocol specification (Thm/C11 scan_eq_spec)"})
             found = True
+        for i, (c, a, m) in enumerate(tbad[:20]):
+            chk.violation("diff_tm_%d.json" % i, {"kind": "model-implementation-disagreement", "engine": "cb", "harness": "h_cb",
+                                                   "library_build": "-DYR_MAX_STRING_MATCHES=%d" % LIMIT,
+                                                   "case": c, "implementation": a, "model_spec": m,
+                                                   "note": "model trace is proved equal to the protocol specification incl. the too-many-matches "
+                                                           "warning (Thm/C11 fullScan_eq_spec)"})
+            found = True
+        bad = bad + tbad
+        cases = cases + tcases
+        impl = impl + timpl
+        model = model + tmodel
         hist = Counter()
         mm = {l.split(" ", 1)[0]: l for l in model}
         scans = 0
@@ -279,6 +516,8 @@ def run(tier, replay=None):
             if nt:
                 nontriv.add(c.split(" ", 1)[1])
         nsets_seen = static_hist(cases, hist)
+        hist["tm:rule_sets"] = tm_hist(tcases, tmodel, hist)
+        hist["tm:case_lines"] = len(tcases)
         if hist["model:BADCASE"]:
             chk.violation("badcase.json", {"kind": "generator-produced-unparsable-case", "count": hist["model:BADCASE"]}, no_input=True)
             found = True
@@ -287,7 +526,8 @@ def run(tier, replay=None):
                         "traces_validated_against_impl": len(cases) - len(bad),
                         "rule": "rule sets over 1-3 (some 66-70) namespaces with global/private/global+private/plain rules, 0-3 imports, x 4 flag settings x scripts "
                                 "'continue k times then abort|error' for every k up to the maximal trace length (+ irregular scripts); one evaluation = one scan; "
-                                "non-trivial case line = rule set with >=1 global or private rule and >=1 scan with >=2 messages",
+                                "non-trivial case line = rule set with >=1 global or private rule and >=1 scan with >=2 messages; the tm:* histogram keys describe the "
+                                "too-many-matches campaign (library with YR_MAX_STRING_MATCHES=10)",
                         "histogram": dict(sorted(hist.items())),
                         "samples": [{"case": cases[i], "implementation": impl[i] if i < len(impl) else None,
                                      "model": model[i] if i < len(model) else None} for i in (0, len(cases) // 2)]})
@@ -295,6 +535,8 @@ def run(tier, replay=None):
     chk.assumptions += ["atoms of a condition are decided from the buffer by the driver (filesize > N, containment of a 2-4 byte string); "
                         "string matching and the VM's other opcodes are the subject of C01-C04",
                         "rule references point to earlier rules of the same namespace (the compiler rejects anything else)",
-                        "callbacks return only CONTINUE/ABORT/ERROR; messages other than the five protocol messages do not occur in the generated rule sets",
+                        "callbacks return only CONTINUE/ABORT/ERROR; messages other than the five protocol messages and TOO_MANY_MATCHES do not occur in the generated rule sets",
+                        "too-many-matches campaign: hex strings of 1-4 bytes without wildcards, no FAST_MODE, warnings of different strings triggered >= 5 bytes apart, "
+                        "the limit is lowered by a compile-time define (the code under test is otherwise the working tree)",
                         "several scans of one case line reuse one scanner (api=s/d) or one rule set (api=r); the model treats scans as independent"]
     return chk.finish("proof")
